@@ -100,6 +100,11 @@ func Templates() []Program {
 		P("l()w(c)", Begin(), List(""), Put("c", "13"), Commit()),
 		P("w(d/y)d(d/y)", Begin(), Put("d/y", "14"), Del("d/y"), Commit()),
 		P("r(d/x)d(d/x)w(a)", Begin(), Get("d/x"), Del("d/x"), Put("a", "15"), Commit()),
+		// the same (prefix, after) listed more than once with different limits: every
+		// listing must stay valid until commit, not only the latest / the largest
+		P("lp(d/,,2)lp(d/,,1)w(b)", Begin(), ListPage("d/", "", 2), ListPage("d/", "", 1), Put("b", "16"), Commit()),
+		P("lp(d/,,1)lp(d/,,2)w(b)", Begin(), ListPage("d/", "", 1), ListPage("d/", "", 2), Put("b", "17"), Commit()),
+		P("l(d/)lp(d/,,1)w(b)", Begin(), List("d/"), ListPage("d/", "", 1), Put("b", "18"), Commit()),
 		P("pput(a)", PPut("a", "20")),
 		P("pdel(a)", PDel("a")),
 		P("pput(d/y)", PPut("d/y", "21")),
